@@ -20,6 +20,11 @@ the loop-detected arm both return ServFail, and ServFail handling clears AA, set
 through execute_allowing_truncation), the others only through execute_allowing_truncation;
 (e) additional-section processing reads the embedded name at the RDATA offset of its type's layout ({NS,MD,MF,MB}:0, MX:2,
 SRV:6) and writes addresses only through execute_allowing_truncation.
+(f) lookup options: a zone lookup skips the wrong-zone test (unchecked: true) only for the QNAME the catalog lookup
+matched (answer / answer_any, name = question.qname); the restarted lookup for a CNAME target in follow_cname_2 and the
+address lookups keep the test (unchecked: false), so an out-of-zone target yields WrongZone instead of being walked
+through the tree with label indices of another name; both address lookups of do_referral search below zone cuts (glue
+and sibling glue live there) and lookup_addrs receives that flag unchanged.
 Not decided: equality of the produced sections with a reference implementation for arbitrary catalogs (value-level).
 """
 ASSUMPTIONS = ['every CFG path of the MIR is assumed feasible', 'frozen spec table written from RFC 1034 §4.3.2 / RFC 2308 §3 / RFC 6604 §3 / RFC 2782']
@@ -129,7 +134,56 @@ def check_referral_glue(R, F):
 
 
 
+def lookup_options(fn, o):
+    """(unchecked, search_below_cuts) of a LookupOptions operand: True / False / a description for non-constants."""
+    txt = paths.show_operand(fn, o)
+    m = re.search(r'unchecked: (true|false), search_below_cuts: (true|false)', txt)
+    if m:
+        return m.group(1) == 'true', m.group(2) == 'true'
+    m = re.match(r'^(?:db::)?zone::LookupOptions\{(.*),(.*)\}$', txt)
+    if m:
+        cv = lambda x: True if x == 'true' else False if x == 'false' else x
+        return cv(m.group(1)), cv(m.group(2))
+    if txt == 'LookupOptions::default()':
+        return False, False
+    return txt, txt
+
+
+def check_lookup_options(R, F):
+    n = 0
+    for gp, fn in sorted(F.fns.items()):
+        if not gp.startswith(Q) or fn.crate != 'quandary' or '::tests::' in gp:
+            continue
+        for b, t in fn.calls():
+            cn = callee_name(t)
+            if not re.search(r'db::zone::Zone::lookup(_all|_addrs)?$', cn):
+                continue
+            n += 1
+            unchecked, below = lookup_options(fn, t['args'][-1])
+            name = paths.show_operand(fn, t['args'][1])
+            key = '%s|%s' % (gp, cn.split('::')[-1])
+            if unchecked is True:
+                ok = gp in (Q + 'answer', Q + 'answer_any') and re.search(r'question\)*\)?\.qname', name) is not None
+                R.require(ok, 'lookup-options', key, fn.where(b), 'unchecked lookup of the QNAME the catalog matched (%s)' % name[:80],
+                          'the wrong-zone test is skipped (unchecked: true) for a name that is not the QNAME matched by the catalog lookup (%s): an out-of-zone name would be resolved with label indices of another name (wrong NXDOMAIN/answers, or an underflow in lookup_base)' % name[:120])
+            else:
+                R.require(unchecked is False, 'lookup-options', key, fn.where(b), 'wrong-zone test kept (unchecked: false) for %s' % name[:80],
+                          'cannot determine the `unchecked` option of this lookup (%s)' % unchecked)
+            if cn.endswith('lookup_addrs'):
+                R.require(below == 'arg3', 'lookup-options', key + '|below-cuts-forwarded', fn.where(b), 'search_below_cuts is the caller-supplied flag', 'lookup_addrs is called with search_below_cuts = %s instead of the caller-supplied flag' % below)
+    dr = F.fn(Q + 'do_referral')
+    sites = [(dr, b, t) for b, t in calls_in(dr, Q + 'add_additional_addresses')] + [(c, b, t) for c in F.closures_of(Q + 'do_referral') for b, t in calls_in(c, Q + 'add_additional_addresses')]
+    for k, (fn, b, t) in enumerate(sites):
+        v = const_name(t['args'][2]) if t['args'][2]['k'] == 'const' else paths.show_operand(fn, t['args'][2])
+        R.require(v == 'true', 'lookup-options', '%s|add_additional_addresses#%d-below-cuts' % (fn.gpath, k), fn.where(b), 'referral addresses are searched below zone cuts',
+                  'a referral looks up name-server addresses with search_below_cuts = %s: glue (also glue below a sibling cut of the same parent) lives below cuts and would be dropped' % v)
+    R.require(len(sites) == 2, 'lookup-options', Q + 'do_referral|two-address-lookups', dr.where(), 'mandatory and optional address lookups', 'expected 2 add_additional_addresses sites in do_referral, found %d' % len(sites))
+    R.floor('lookup-options', 8, '4 zone lookups + forwarded flag + 2 referral sites + count')
+
+
 def check(R, F):
+    check_lookup_options(R, F)
+
     # ---- (a) outcome tables
     for (fpath, enum), spec in SPEC.items():
         fn = F.fn(fpath)
